@@ -377,6 +377,15 @@ func runC06CLI(c *core.Ctx) {
 			}
 			op := []string{"rm", "restore", "add"}[w.Rng.IntN(3)]
 			c.Oracle("C06.cli-addressable")
+			// the same name in another spelling ("./q", "q/" for a directory) names the same paths
+			qArg := q
+			if len(want) > 0 && w.Rng.IntN(3) == 0 {
+				if _, isFile := idx0[q]; !isFile && w.Rng.IntN(2) == 0 {
+					qArg = q + "/"
+				} else {
+					qArg = "./" + q
+				}
+			}
 			rel := "tracked-file"
 			if len(want) == 0 {
 				rel = "near-miss"
@@ -387,7 +396,7 @@ func runC06CLI(c *core.Ctx) {
 			trig := rel
 			switch op {
 			case "rm":
-				st := w.Goit("rm", q)
+				st := w.Goit("rm", qArg)
 				idx1, _ := idx(st.Post)
 				var gone []string
 				for p := range idx0 {
@@ -404,7 +413,7 @@ func runC06CLI(c *core.Ctx) {
 				for p := range idx0 {
 					w.Edit("rm", p, nil)
 				}
-				st := w.Goit("restore", q)
+				st := w.Goit("restore", qArg)
 				var back []string
 				wt1 := st.Post.WT()
 				for p := range idx0 {
@@ -426,7 +435,7 @@ func runC06CLI(c *core.Ctx) {
 						w.Edit("rm", p, nil)
 					}
 				}
-				st := w.Goit("add", q)
+				st := w.Goit("add", qArg)
 				idx1, _ := idx(st.Post)
 				var gone []string
 				for p := range idx0 {
